@@ -62,6 +62,7 @@ type hcExchange struct {
 	RBodyLen int         `json:"rbody_len"`
 	RChunked bool        `json:"rchunked"`
 	RGzip    bool        `json:"rgzip"`
+	RGzipBad int         `json:"rgzip_bad"` // with RGzip: 1 = gzip stream cut short, 2 = wrong CRC trailer (the declared length matches the bytes sent)
 	RShort   int         `json:"rshort"` // >0: declare RBodyLen, send RShort bytes fewer, then close
 	RReset   bool        `json:"rreset"` // reset the backend connection in the middle of the body
 	RInc     bool        `json:"rincompressible"`
@@ -92,6 +93,12 @@ type hcScenario struct {
 	// C07 only: route cache, two path rules (/up carries the path-level limit,
 	// everything else falls back to the server level), and a hot update of all
 	// four limits between two rounds of exchanges
+	// C03 only: a mirror pool (requests carrying "X-Mirror: 1" are copied to a
+	// second backend, which is healthy, slow, resetting, answering big or down)
+	Mirror string `json:"mirror"` // "", ok, slow, reset, big, down
+	// C03 only: the pool's server list comes from the service registry (delivered
+	// after the pool exists, as its registry watcher does); ip4 and host forms only
+	Discovered bool `json:"discovered"`
 	CacheSize  int       `json:"cache_size"`
 	SplitPaths bool      `json:"split_paths"`
 	Reload     *hcReload `json:"reload"`
@@ -209,6 +216,8 @@ type hcChain struct {
 	panics   []string
 	lim      hcLimits
 	mapper   *hcMapper
+	mirror   *http.Server
+	mseen    map[string]*hcSeen
 	gen      int
 }
 
@@ -269,9 +278,17 @@ func (c *hcChain) pipeYAML(lim hcLimits) string {
 	if sc.Retry > 1 {
 		filters.WriteString("    retryPolicy: retry\n    failureCodes: [502]\n")
 	}
-	fmt.Fprintf(&filters, "    servers:\n    - url: http://%s\n", c.backAddr)
-	if sc.KeepHost {
-		filters.WriteString("      keepHost: true\n")
+	if sc.Discovered {
+		// the static entry is a dead placeholder; the live instance arrives by HCUseService
+		filters.WriteString("    serverTags: [live]\n    servers:\n    - url: http://10.9.9.9:1\n      tags: [placeholder]\n")
+	} else {
+		fmt.Fprintf(&filters, "    servers:\n    - url: http://%s\n", c.backAddr)
+		if sc.KeepHost {
+			filters.WriteString("      keepHost: true\n")
+		}
+	}
+	if sc.Mirror != "" {
+		filters.WriteString("  mirrorPool:\n    filter:\n      headers:\n        X-Mirror:\n          exact: \"1\"\n    servers:\n    - url: http://10.9.0.2:9002\n")
 	}
 	switch sc.RespAdaptor {
 	case "compress", "decompress":
@@ -377,6 +394,15 @@ func hcNewChain(r *sim.Run, sc *hcScenario) (*hcChain, error) {
 	c.backend = &http.Server{Handler: http.HandlerFunc(c.backendHandler)}
 	go c.backend.Serve(bl)
 
+	if sc.Mirror != "" && sc.Mirror != "down" {
+		ml, err := c.net.Listen("tcp", "10.9.0.2:9002")
+		if err != nil {
+			return nil, err
+		}
+		c.mseen = map[string]*hcSeen{}
+		c.mirror = &http.Server{Handler: http.HandlerFunc(c.mirrorHandler)}
+		go c.mirror.Serve(ml)
+	}
 	c.lim = hcLimits{sc.SrvMax, sc.PathMax, sc.PoolMax, sc.ProxyMax}
 	pyaml := c.pipeYAML(c.lim)
 	pspec, err := supervisor.NewSpec(pyaml)
@@ -388,6 +414,13 @@ func hcNewChain(r *sim.Run, sc *hcScenario) (*hcChain, error) {
 	c.pipe = &pipeline.Pipeline{}
 	c.pipe.Init(pspec, mapper)
 	mapper.m["pipe"] = c.pipe
+	if sc.Discovered {
+		host, port, _ := net.SplitHostPort(c.backAddr)
+		pn, _ := strconv.Atoi(port)
+		if proxy.HCUseService(host, uint16(pn)) == 0 {
+			return nil, fmt.Errorf("no proxy to deliver service instances to")
+		}
+	}
 
 	// front server: real mux under a real http.Server
 	syaml := c.serverYAML(c.lim)
@@ -423,6 +456,9 @@ func (c *hcChain) close() {
 	proxy.HCRelease()
 	c.front.Close()
 	c.backend.Close()
+	if c.mirror != nil {
+		c.mirror.Close()
+	}
 	c.pipe.Close()
 	c.net.Shutdown()
 	simnet.SetDefault(nil)
@@ -459,6 +495,15 @@ func (c *hcChain) backendHandler(w http.ResponseWriter, req *http.Request) {
 	wire := payload
 	if ex.RGzip {
 		wire = hcGzip(payload)
+		switch {
+		case ex.RGzipBad == 1 && len(wire) > 24:
+			c.r.Fault("backend.gzip_stream_cut")
+			wire = wire[:len(wire)-len(wire)/3]
+		case ex.RGzipBad == 2 && len(wire) > 24:
+			c.r.Fault("backend.gzip_bad_crc")
+			wire = append([]byte(nil), wire...)
+			wire[len(wire)-6] ^= 0x5a
+		}
 	}
 	if ex.RShort > 0 || ex.RReset {
 		// lie about the length / die in the middle: write the raw response ourselves
@@ -493,7 +538,7 @@ func (c *hcChain) backendHandler(w http.ResponseWriter, req *http.Request) {
 		if ex.RReset {
 			c.r.Fault("backend.reset_mid_body")
 			// let the bytes travel, then abort
-			time.Sleep(time.Millisecond)
+			c.r.Sleep(time.Millisecond)
 			if sc, ok := conn.(*simnet.Conn); ok {
 				sc.Reset()
 			}
@@ -531,6 +576,48 @@ func (c *hcChain) backendHandler(w http.ResponseWriter, req *http.Request) {
 		return
 	}
 	w.Write(wire)
+}
+
+// mirrorHandler is the backend of the mirror pool: it records what it was sent
+// and answers (or fails) in the way the scenario says; nothing it does may show
+// in the exchange between the client and the main backend.
+func (c *hcChain) mirrorHandler(w http.ResponseWriter, req *http.Request) {
+	id := req.Header.Get("X-Verif-Id")
+	body, berr := io.ReadAll(req.Body)
+	s := c.mseen[id]
+	if s == nil {
+		s = &hcSeen{}
+		c.mseen[id] = s
+	}
+	s.count++
+	s.method, s.path, s.query, s.host = req.Method, req.URL.Path, req.URL.RawQuery, req.Host
+	s.hdr = req.Header.Clone()
+	s.body, s.bodyErr = body, berr
+	c.r.Eventf("mirror got %s %s %s body=%d err=%v", id, req.Method, req.URL.Path, len(body), berr)
+	switch c.sc.Mirror {
+	case "slow":
+		c.r.Fault("mirror.slow_answer")
+		c.r.Sleep(5 * time.Second)
+	case "reset":
+		c.r.Fault("mirror.reset")
+		if hj, ok := w.(http.Hijacker); ok {
+			if conn, _, err := hj.Hijack(); err == nil {
+				if sc, ok := conn.(*simnet.Conn); ok {
+					sc.Reset()
+				}
+				conn.Close()
+			}
+		}
+		return
+	case "big":
+		c.r.Fault("mirror.big_answer")
+		w.WriteHeader(500)
+		w.Write(hcBody("mirror"+id, 200000, true))
+		return
+	}
+	w.Header().Set("X-From-Mirror", "1")
+	w.WriteHeader(418)
+	w.Write([]byte("answer of the mirror backend"))
 }
 
 // ---- raw client ---------------------------------------------------------
